@@ -613,4 +613,30 @@ theorem rewriteBind_marshal (f : Nat → Bytes → Bytes)
   ⟨_, rewriteBind_wellformed f g hg portal stmt lb pf pv rf hp hs hpf hrf hpv hpv' hne hfmt hsz,
     marshal_encodeMsg 66 _ (by decide)⟩
 
+/-! ### sanity checks -/
+
+example : canonFormats [] 2 = [0] := by decide
+example : canonFormats [1] 3 = [1] := by decide
+example : canonFormats [1, 1] 2 = [1] := by decide
+example : canonFormats [0, 1] 2 = [0, 1] := by decide
+
+/-- non-vacuity of `rewriteBind_wellformed`: two parameters (text value, binary NULL) -/
+example : rewriteBind (fun i _ v => .ok (v.map ((fun _ d => d ++ [2]) i)))
+      ⟨66, [], encodeBind [112] [115] [0, 1] [some [1], none] [1]⟩ =
+    .ok ⟨66, beBytes 4 ((encodeBind [112] [115] (canonFormats [0, 1] 2)
+        (mapRow (fun _ d => d ++ [2]) 0 [some [1], none]) [1]).length + 4),
+      encodeBind [112] [115] (canonFormats [0, 1] 2) (mapRow (fun _ d => d ++ [2]) 0 [some [1], none]) [1]⟩ :=
+  rewriteBind_wellformed (fun _ d => d ++ [2]) _ (fun _ _ _ => rfl) [112] [115] [] [0, 1]
+    [some [1], none] [1]
+    (by intro c hc; simp at hc; subst hc; decide) (by intro c hc; simp at hc; subst hc; decide)
+    ⟨by decide, by intro x hx; simp at hx; omega⟩ ⟨by decide, by intro x hx; simp at hx; omega⟩
+    ⟨by decide, by intro b hb; simp at hb; subst hb; decide⟩
+    (by intro b hb; simp [mapRow] at hb; subst hb; decide)
+    (by simp)
+    (by
+      intro i hi
+      have : i = 0 ∨ i = 1 := by simp at hi; omega
+      rcases this with h | h <;> subst h <;> exact ⟨_, rfl⟩)
+    (by decide)
+
 end AcraModel.Wire.Pg
